@@ -42,10 +42,19 @@ pub struct Job {
     pub hang_is_violation: bool,
     /// fails the run as vacuous if no execution of this job was non-trivial
     pub must_be_nontrivial: bool,
+    /// human-readable expected behaviour (reference outcomes), for `sched-mc show`
+    pub show: Option<Arc<dyn Fn() -> String + Send + Sync>>,
 }
 
 thread_local! {
     static LAST: RefCell<Option<ExecResult>> = const { RefCell::new(None) };
+    static HANG_RECORDER: RefCell<Option<fn(Value)>> = const { RefCell::new(None) };
+}
+
+/// A deadlock/livelock ends the process right after the exploration callback (the suspended
+/// coroutines cannot be unwound), so that violation is handed to this recorder immediately.
+pub fn set_hang_recorder(f: fn(Value)) {
+    HANG_RECORDER.with(|h| *h.borrow_mut() = Some(f));
 }
 
 #[derive(Default)]
@@ -198,6 +207,13 @@ pub fn run_job(
                         }
                         Verdict::Continue
                     } else {
+                        if hang {
+                            HANG_RECORDER.with(|h| {
+                                if let Some(f) = *h.borrow() {
+                                    f(v.clone());
+                                }
+                            });
+                        }
                         violation = Some(v);
                         Verdict::Stop
                     }
